@@ -20,6 +20,9 @@ func init() {
 			for op := 0; op <= 6; op++ {
 				r = append(r, Oblig{Harness: "vh_C03_fold", Globals: map[string]int{"vhOp": op}})
 			}
+			for op := 0; op <= 3; op++ {
+				r = append(r, Oblig{Harness: "vh_C03_bitwise", BVMode: true, Globals: map[string]int{"vhOp": op}})
+			}
 			for op := 0; op <= 1; op++ {
 				r = append(r, Oblig{Harness: "vh_C03_shift", Globals: map[string]int{"vhOp": op}, Unroll: 70, MaxPaths: 1000})
 			}
@@ -27,6 +30,6 @@ func init() {
 		},
 		Bounds:      []string{"integer constants of unbounded magnitude (SMT Int)", "all 11 integer kinds", "shift counts 0..64", "strings: any ASCII string"},
 		Assumptions: []string{"go/constant modelled exactly on Int/String/Bool kinds; Float/Complex constants opaque", "reflect modelled on basic kinds (engine reflect model)", "folding checked on untyped operands"},
-		Outside:     []string{"float/complex representability and rounding", "iota and implicit repetition", "default types", "typed-constant overflow after folding (checked in cfg.go's binaryExpr, not encodable)", "bitwise operators on unbounded constants", "len of constant arrays"},
+		Outside:     []string{"float/complex representability and rounding", "iota and implicit repetition", "default types", "typed-constant overflow after folding (checked in cfg.go's binaryExpr, not encodable)", "bitwise operators on constants outside [0, 2^64)", "len of constant arrays"},
 	}
 }
